@@ -112,6 +112,121 @@ mod probes {
                         outs[0].0, outs[0].1, outs[0].2, outs[1].0, outs[1].1, outs[1].2));
                 }
             }
+            // ---- C17: different routes to the same allocation end at the same offset with the same bytes
+            //      allocated and the same contents: value vs uninit+init, slice vs uninit-slice+init_*,
+            //      C strings from a CStr and from a str; C03: an explicit scope guard, reset and dropped
+            {
+                let len = $r.range(0, 9) as usize;
+                let data: Vec<u32> = (0..len as u32).map(|i| 0x0101_0101u32.wrapping_mul(i + 1)).collect();
+                // (group, route, offset, allocated afterwards, bytes): routes of one group carry the same request
+                // (a method, its try_ twin, the same method on the BumpScope / through a reference)
+                let mut outs: Vec<(u32, String, usize, usize, Vec<u8>)> = vec![];
+                let mut rec = |g: u32, name: &str, b: &B, p: usize, n: usize| {
+                    let st = b.stats();
+                    let c = st.small_to_big().find(|c| (c.chunk_start().as_ptr() as usize) <= p && p <= c.chunk_end().as_ptr() as usize).map_or(0, |c| c.chunk_start().as_ptr() as usize);
+                    let bytes = unsafe { core::slice::from_raw_parts(p as *const u8, n) }.to_vec();
+                    // the address of an empty allocation carries no information (it may dangle)
+                    outs.push((g, name.to_string(), if n == 0 { 0 } else { p - c }, st.allocated(), bytes));
+                };
+                let expected: Vec<u8>;
+                match $r.below(4) {
+                    0 => {
+                        expected = 0x1122_3344_5566_7788u64.to_ne_bytes().to_vec();
+                        { let b = make(); let x = b.alloc(0x1122_3344_5566_7788u64); let p = &*x as *const u64 as usize; rec(0, "alloc", &b, p, 8); }
+                        { let b = make(); let x = b.try_alloc(0x1122_3344_5566_7788u64).unwrap(); let p = &*x as *const u64 as usize; rec(0, "try_alloc", &b, p, 8); }
+                        { let b = make(); let x = b.as_scope().alloc(0x1122_3344_5566_7788u64); let p = &*x as *const u64 as usize; rec(0, "BumpScope::alloc", &b, p, 8); }
+                        { let b = make(); let x = b.alloc_uninit::<u64>().init(0x1122_3344_5566_7788u64); let p = &*x as *const u64 as usize; rec(1, "alloc_uninit + init", &b, p, 8); }
+                        { let b = make(); let x = b.try_alloc_uninit::<u64>().unwrap().init(0x1122_3344_5566_7788u64); let p = &*x as *const u64 as usize; rec(1, "try_alloc_uninit + init", &b, p, 8); }
+                        { let b = make(); let x = b.as_scope().alloc_uninit::<u64>().init(0x1122_3344_5566_7788u64); let p = &*x as *const u64 as usize; rec(1, "BumpScope::alloc_uninit + init", &b, p, 8); }
+                        { let b = make(); let x = b.alloc_with(|| 0x1122_3344_5566_7788u64); let p = &*x as *const u64 as usize; rec(2, "alloc_with", &b, p, 8); }
+                        { let b = make(); let x = b.try_alloc_with(|| 0x1122_3344_5566_7788u64).unwrap(); let p = &*x as *const u64 as usize; rec(2, "try_alloc_with", &b, p, 8); }
+                    }
+                    1 => {
+                        expected = data.iter().flat_map(|x| x.to_ne_bytes()).collect();
+                        { let b = make(); let x = b.alloc_slice_copy(&data); let p = x.as_ptr() as usize; rec(0, "alloc_slice_copy", &b, p, 4 * len); }
+                        { let b = make(); let x = b.try_alloc_slice_copy(&data).unwrap(); let p = x.as_ptr() as usize; rec(0, "try_alloc_slice_copy", &b, p, 4 * len); }
+                        { let b = make(); let x = b.as_scope().alloc_slice_copy(&data); let p = x.as_ptr() as usize; rec(0, "BumpScope::alloc_slice_copy", &b, p, 4 * len); }
+                        { let b = make(); let x = b.alloc_slice_clone(&data); let p = x.as_ptr() as usize; rec(1, "alloc_slice_clone", &b, p, 4 * len); }
+                        { let b = make(); let x = b.try_alloc_slice_clone(&data).unwrap(); let p = x.as_ptr() as usize; rec(1, "try_alloc_slice_clone", &b, p, 4 * len); }
+                        { let b = make(); let x = b.alloc_uninit_slice::<u32>(len).init_copy(&data); let p = x.as_ptr() as usize; rec(2, "alloc_uninit_slice + init_copy", &b, p, 4 * len); }
+                        { let b = make(); let x = b.try_alloc_uninit_slice::<u32>(len).unwrap().init_clone(&data); let p = x.as_ptr() as usize; rec(2, "try_alloc_uninit_slice + init_clone", &b, p, 4 * len); }
+                        { let b = make(); let x = b.alloc_uninit_slice_for(&data).init_clone(&data); let p = x.as_ptr() as usize; rec(3, "alloc_uninit_slice_for + init_clone", &b, p, 4 * len); }
+                        { let b = make(); let x = b.try_alloc_uninit_slice_for(&data).unwrap().init_copy(&data); let p = x.as_ptr() as usize; rec(3, "try_alloc_uninit_slice_for + init_copy", &b, p, 4 * len); }
+                        { let b = make(); let mut i = 0; let x = b.alloc_uninit_slice::<u32>(len).init_fill_with(|| { i += 1; data[i - 1] }); let p = x.as_ptr() as usize; rec(2, "alloc_uninit_slice + init_fill_with", &b, p, 4 * len); }
+                        { let b = make(); let x = b.alloc_slice_move(data.clone()); let p = x.as_ptr() as usize; rec(4, "alloc_slice_move", &b, p, 4 * len); }
+                        { let b = make(); let x = b.try_alloc_slice_move(data.clone()).unwrap(); let p = x.as_ptr() as usize; rec(4, "try_alloc_slice_move", &b, p, 4 * len); }
+                        { let b = make(); let x = b.alloc_iter_exact(data.iter().copied()); let p = x.as_ptr() as usize; rec(5, "alloc_iter_exact", &b, p, 4 * len); }
+                        { let b = make(); let x = b.try_alloc_iter_exact(data.iter().copied()).unwrap(); let p = x.as_ptr() as usize; rec(5, "try_alloc_iter_exact", &b, p, 4 * len); }
+                    }
+                    2 => {
+                        expected = (0..len).flat_map(|_| 0xA1B2_C3D4u32.to_ne_bytes()).collect();
+                        { let b = make(); let x = b.alloc_slice_fill(len, 0xA1B2_C3D4u32); let p = x.as_ptr() as usize; rec(0, "alloc_slice_fill", &b, p, 4 * len); }
+                        { let b = make(); let x = b.try_alloc_slice_fill(len, 0xA1B2_C3D4u32).unwrap(); let p = x.as_ptr() as usize; rec(0, "try_alloc_slice_fill", &b, p, 4 * len); }
+                        { let b = make(); let x = b.alloc_uninit_slice::<u32>(len).init_fill(0xA1B2_C3D4u32); let p = x.as_ptr() as usize; rec(1, "alloc_uninit_slice + init_fill", &b, p, 4 * len); }
+                        { let b = make(); let x = b.alloc_slice_fill_with(len, || 0xA1B2_C3D4u32); let p = x.as_ptr() as usize; rec(2, "alloc_slice_fill_with", &b, p, 4 * len); }
+                        { let b = make(); let x = b.try_alloc_slice_fill_with(len, || 0xA1B2_C3D4u32).unwrap(); let p = x.as_ptr() as usize; rec(2, "try_alloc_slice_fill_with", &b, p, 4 * len); }
+                    }
+                    _ => {
+                        let text: String = (0..len).map(|i| if i == 5 { '\0' } else { char::from(b'a' + i as u8) }).collect();
+                        let upto: Vec<u8> = text.bytes().take_while(|&x| x != 0).collect();
+                        let c = std::ffi::CString::new(upto.clone()).unwrap();
+                        expected = c.as_bytes_with_nul().to_vec();
+                        { let b = make(); let x = b.alloc_cstr(&c); let p = x.as_ptr() as usize; rec(0, "alloc_cstr", &b, p, upto.len() + 1); }
+                        { let b = make(); let x = b.try_alloc_cstr(&c).unwrap(); let p = x.as_ptr() as usize; rec(0, "try_alloc_cstr", &b, p, upto.len() + 1); }
+                        { let b = make(); let x = b.alloc_cstr_from_str(&text); let p = x.as_ptr() as usize; rec(1, "alloc_cstr_from_str", &b, p, upto.len() + 1); }
+                        { let b = make(); let x = b.try_alloc_cstr_from_str(&text).unwrap(); let p = x.as_ptr() as usize; rec(1, "try_alloc_cstr_from_str", &b, p, upto.len() + 1); }
+                        { let b = make(); let x = b.as_scope().alloc_cstr_from_str(&text); let p = x.as_ptr() as usize; rec(1, "BumpScope::alloc_cstr_from_str", &b, p, upto.len() + 1); }
+                    }
+                }
+                for (k, o) in outs.iter().enumerate() {
+                    if o.4 != expected {
+                        $notes.push(format!("entry-points-differ: {} produced the bytes {:?}, the request was for {:?} (len {len}, {tag}, fill {fill}, odd {odd})", o.1, o.4, expected));
+                    }
+                    if let Some(first) = outs[..k].iter().find(|f| f.0 == o.0) {
+                        if o.2 != first.2 || o.3 != first.3 {
+                            $notes.push(format!("entry-points-differ: {} gives (offset {}, allocated {}), {} gives (offset {}, allocated {}) (len {len}, {tag}, fill {fill}, odd {odd})",
+                                first.1, first.2, first.3, o.1, o.2, o.3));
+                        }
+                    }
+                }
+                // dealloc of the newest box gives its bytes back (when the settings deallocate) and drops the value once
+                {
+                    struct Cnt<'a>(&'a core::cell::Cell<u32>, [u8; 24]);
+                    impl Drop for Cnt<'_> { fn drop(&mut self) { self.0.set(self.0.get() + 1); } }
+                    let drops = core::cell::Cell::new(0u32);
+                    let b = make();
+                    let before = positions(&b);
+                    let x = b.alloc(Cnt(&drops, [7; 24]));
+                    b.dealloc(x);
+                    let after = positions(&b);
+                    if drops.get() != 1 { $notes.push(format!("entry-points-differ: dealloc dropped the value {} times ({tag})", drops.get())); }
+                    // same chunk: the bytes are back (up to alignment padding); a chunk switch: the new chunk is empty again
+                    let used_now = b.stats().current_chunk().map_or(0, |c| c.allocated());
+                    if (after.1 == before.1 && after.2 > before.2 + 16) || (after.1 != before.1 && used_now > 16) {
+                        $notes.push(format!("entry-points-differ: dealloc of the newest box left {} bytes allocated ({} in the current chunk), {} before the allocation ({tag}, fill {fill}, odd {odd})", after.2, used_now, before.2));
+                    }
+                }
+                // an explicit scope guard: reset() and drop both return to the entry state, earlier data survives
+                {
+                    let mut b = make();
+                    let keep = b.alloc_slice_fill(5, 0x5Au8).as_ptr() as usize;
+                    let before = positions(&b);
+                    {
+                        let mut g = b.scope_guard();
+                        { let s = g.scope(); s.alloc_slice_fill(len * 40, 0xEEu8); s.alloc(3u64); }
+                        g.reset();
+                        let mid = { let s = g.scope(); let st = s.stats(); (st.allocated(), st.current_chunk().map_or(0, |c| c.bump_position().as_ptr() as usize)) };
+                        let cur_before = before.0.iter().find(|c| c.0 == before.1).map_or(0, |c| c.1);
+                        if mid.0 != before.2 || mid.1 != cur_before { $notes.push(format!("scope-exit-did-not-restore-position: BumpScopeGuard::reset left allocated {} position {:#x}, at entry {} {:#x} ({tag}, fill {fill})", mid.0, mid.1, before.2, cur_before)); }
+                        { let s = g.scope(); s.alloc_slice_fill(len * 7 + 1, 0xDDu8); }
+                    }
+                    let after = positions(&b);
+                    let cur_b = before.0.iter().find(|c| c.0 == before.1).map_or(0, |c| c.1);
+                    let cur_a = after.0.iter().find(|c| c.0 == after.1).map_or(0, |c| c.1);
+                    if after.2 != before.2 || after.1 != before.1 || cur_a != cur_b { $notes.push(format!("scope-exit-did-not-restore-position: dropping a BumpScopeGuard left allocated {} position {:#x}, at entry {} {:#x} ({tag}, fill {fill})", after.2, cur_a, before.2, cur_b)); }
+                    if unsafe { core::slice::from_raw_parts(keep as *const u8, 5) } != [0x5Au8; 5] { $notes.push(format!("block-contents-changed: data allocated before a scope guard changed ({tag})")); }
+                }
+            }
             let ok = $r.coin(2, 3);
             match $r.below(5) {
                 0 => twins!(u8, u64, if ok { Ok(7u8) } else { Err(9u64) }),
